@@ -68,7 +68,10 @@ CallScope(scope, s) == Append(scope, "$m" \o ToString(s.oid))          \* the fr
 DefScope(scope, s) == Append(scope, "$d" \o ToString(s.oid))           \* the body as written, parameters bound
 ParamEnts(d, M) == [k \in {Key(M, <<d.params[i]>>) : i \in 1..Len(d.params)} |->
                       LET i == CHOOSE i \in 1..Len(d.params) : Key(M, <<d.params[i]>>) = k IN
-                      Ent(d.poids[i], M, Append(M, d.params[i]), "const")]
+                      Ent(d.poids[i], M, Append(M, d.params[i]), "param")]
+(* of what an untaken branch would define only the parameters of the macro calls in it are kept: they live in the call's own *)
+(* scope, which nothing else can reach, and bind the body occurrences of that (analysed, never assembled) expansion          *)
+OnlyParams(t) == [k \in {k \in DOMAIN t : t[k].kind = "param"} |-> t[k]]
 
 (* symbol table: key -> [oid of the definition, scope the key lives in, scope its children live in] *)
 RECURSIVE DefsOf(_, _, _, _)
@@ -80,8 +83,10 @@ DefsOf(prog, scope, files, md) ==
                                    @@ (IF s.hasBody THEN DefsOf(s.body, Append(scope, s.name), files, md) ELSE <<>>)
                [] s.k = "const" -> (Key(scope, <<s.name>>) :> Ent(s.oid, scope, Append(scope, s.name), "const"))
                [] s.k = "braces" -> DefsOf(s.body, Append(scope, s.sid), files, md)
-               [] s.k = "if0" -> DefsOf(s.body, scope, files, md)
-               [] s.k = "ifelse" -> DefsOf(s.then, scope, files, md) @@ DefsOf(s.else, scope, files, md)
+               (* what an untaken branch defines is not part of the program: the assembler never sees it *)
+               [] s.k = "if0" -> OnlyParams(DefsOf(s.body, scope, files, md))
+               [] s.k = "ifelse" -> IF s.c = 1 THEN DefsOf(s.then, scope, files, md) @@ OnlyParams(DefsOf(s.else, scope, files, md))
+                                    ELSE DefsOf(s.else, scope, files, md) @@ OnlyParams(DefsOf(s.then, scope, files, md))
                [] s.k = "ifdef" -> DefsOf(s.body, scope, files, md)
                [] s.k = "var" -> (Key(scope, <<s.name>>) :> Ent(s.oid, scope, Append(scope, s.name), "var"))       \* @@ keeps the first one
                [] s.k = "loop" -> (Key(Append(scope, s.sid), <<"index">>) :> EntA(NoNode, Append(scope, s.sid), Append(scope, s.sid) \o <<"index">>, "const", NoNode))
@@ -149,6 +154,8 @@ Occ(oid, node, def, file, scope, name, path, seg) == OccC(oid, node, def, file, 
 UseOccs(tab, scope, file, path, oids) ==
   LET r == Resolve(tab, scope, path) IN
   {OccS(oids[i], IF r.ok THEN r.oids[i] ELSE -1, FALSE, file, scope, path[i], path, i, FALSE, IF r.ok THEN r.sps[i] ELSE -1) : i \in 1..Len(path)}
+(* occurrences inside a branch that is not taken: a definition there defines nothing (NoNode); it is marked with seg = -1 *)
+Untaken(occs) == {IF o.def THEN [o EXCEPT !.node = NoNode, !.sp = NoNode, !.seg = -1] ELSE o : o \in occs}
 RECURSIVE OccsOf(_, _, _, _, _, _)
 OccsOf(prog, scope, file, files, tab, md) ==
   IF prog = <<>> THEN {}
@@ -158,8 +165,9 @@ OccsOf(prog, scope, file, files, tab, md) ==
                                    \cup (IF s.hasBody THEN OccsOf(s.body, Append(scope, s.name), file, files, tab, md) ELSE {})
                [] s.k = "const" -> {Occ(s.oid, s.oid, TRUE, file, scope, s.name, <<s.name>>, 1)}
                [] s.k = "braces" -> OccsOf(s.body, Append(scope, s.sid), file, files, tab, md)
-               [] s.k = "if0" -> OccsOf(s.body, scope, file, files, tab, md)
-               [] s.k = "ifelse" -> OccsOf(s.then, scope, file, files, tab, md) \cup OccsOf(s.else, scope, file, files, tab, md)
+               [] s.k = "if0" -> Untaken(OccsOf(s.body, scope, file, files, tab, md))
+               [] s.k = "ifelse" -> (IF s.c = 1 THEN OccsOf(s.then, scope, file, files, tab, md) ELSE Untaken(OccsOf(s.then, scope, file, files, tab, md)))
+                                    \cup (IF s.c = 1 THEN Untaken(OccsOf(s.else, scope, file, files, tab, md)) ELSE OccsOf(s.else, scope, file, files, tab, md))
                [] s.k = "macrodef" ->
                     LET M == DefScope(scope, s) IN
                     {Occ(s.oid, s.oid, TRUE, file, scope, s.name, <<s.name>>, 1)}
@@ -195,7 +203,7 @@ OccsOf(prog, scope, file, files, tab, md) ==
 TabAt(tab, ord, oid) == [k \in {k \in DOMAIN tab : ~(tab[k].kind = "var" /\ ord[tab[k].oid] > ord[oid])} |-> tab[k]]
 LaterVar(tab, ord, oid) == \E k \in DOMAIN tab : tab[k].kind = "var" /\ ord[tab[k].oid] > ord[oid]
 Resee(tab, ord, o) ==        \* a path occurrence resolved again in the table it really sees
-  IF o.def \/ o.call \/ o.seg = 0 \/ o.node = NoNode \/ ~LaterVar(tab, ord, o.oid) THEN o
+  IF o.def \/ o.call \/ o.seg <= 0 \/ o.node = NoNode \/ ~LaterVar(tab, ord, o.oid) THEN o
   ELSE LET r == Resolve(TabAt(tab, ord, o.oid), o.scope, o.path) IN
        [o EXCEPT !.node = IF r.ok THEN r.oids[o.seg] ELSE -1, !.sp = IF r.ok THEN r.sps[o.seg] ELSE -1]
 
@@ -240,16 +248,16 @@ Highlights(P, d, file) == {o.oid : o \in {x \in P.occs : x.node = d /\ x.file = 
 (* Pass 0 of the assembler has no segment yet: labels get no value, but the scopes of label blocks exist and constants   *)
 (* are defined in order.  What the occurrence denoted then (-1: nothing).                                                 *)
 PassZeroNode(P, o, ord) ==
-  IF o.def \/ o.call \/ o.seg = 0 THEN o.node
-  ELSE LET tb == [k \in {k \in DOMAIN P.tab : P.tab[k].kind \in {"scope", "const", "macro"} /\ (P.tab[k].oid = NoNode \/ ord[P.tab[k].oid] < ord[o.oid])} |-> P.tab[k]]
+  IF o.def \/ o.call \/ o.seg <= 0 THEN o.node
+  ELSE LET tb == [k \in {k \in DOMAIN P.tab : P.tab[k].kind \in {"scope", "const", "macro", "param"} /\ (P.tab[k].oid = NoNode \/ ord[P.tab[k].oid] < ord[o.oid])} |-> P.tab[k]]
            r == Resolve(tb, o.scope, o.path) IN
        IF r.ok THEN r.oids[o.seg] ELSE -1
 
 (* What the occurrence denoted in the first emitting pass: the labels that follow it in the text have no value yet, while *)
 (* block scopes and constants are known from pass 0.  ord: oid -> textual order.  Used only as the witness of a recorded deviation.                                  *)
 PassOneNode(P, o, ord) ==
-  IF o.def \/ o.call \/ o.seg = 0 THEN o.node
-  ELSE LET tb == [k \in {k \in DOMAIN P.tab : P.tab[k].kind \in {"scope", "const", "macro"} \/ ord[P.tab[k].oid] < ord[o.oid]} |-> P.tab[k]]
+  IF o.def \/ o.call \/ o.seg <= 0 THEN o.node
+  ELSE LET tb == [k \in {k \in DOMAIN P.tab : P.tab[k].kind \in {"scope", "const", "macro", "param"} \/ ord[P.tab[k].oid] < ord[o.oid]} |-> P.tab[k]]
            r == Resolve(tb, o.scope, o.path) IN
        IF r.ok THEN r.oids[o.seg] ELSE -1
 
@@ -278,6 +286,12 @@ SeveralVars(P, d) == d \in VarNodes(P) /\ Cardinality(VarNodes(P)) >= 2
 
 (* a file that is imported by two import statements of the entry file (witness of a recorded deviation) *)
 ImportedTwice(prog) == {prog[i].file : i \in {i \in 1..Len(prog) : prog[i].k = "import" /\ \E j \in 1..Len(prog) : j # i /\ prog[j].k = "import" /\ prog[j].file = prog[i].file}}
+
+(* definitions that stand in untaken branches, and the occurrences they would shadow if they were part of the program  *)
+(* (witness of `UntakenDefinitionShadows': the language server's analysis does enter them into its symbol table)        *)
+UntakenDefs(P) == {o \in P.occs : o.seg = -1}
+IsPrefix(a, b) == Len(a) <= Len(b) /\ SubSeq(b, 1, Len(a)) = a
+ShadowedByUntaken(P, o) == \E u \in UntakenDefs(P) : u.name = o.path[1] /\ IsPrefix(u.scope, o.scope) /\ u.oid # o.oid
 
 (* the tokens of aliased items `a as x' of the (top-level) selective imports: witness of a recorded deviation only *)
 AliasedItems(prog) == UNION {{prog[i].items[j] : j \in {j \in 1..Len(prog[i].items) : prog[i].items[j].alias # ""}} :
